@@ -56,7 +56,11 @@ def fn_labels(src):
     for m in re.finditer(r"(?m)^(?:pub\(crate\) )?fn (\w+)(?:<[^>]*>)?\(", text):
         nxt = re.search(r"(?m)^(?:#\[|(?:pub\(crate\) )?fn |// ====)", text[m.end():])
         body = text[m.end(): m.end() + (nxt.start() if nxt else len(text))]
-        res[m.group(1)] = (set(re.findall(r'"(C\d\d\.[\w.]+)', body)), set(re.findall(r"\b(\w+)(?:::<[^>]*>)?\(", body)))
+        labs = set()
+        for ps, rest in re.findall(r'"((?:C\d\d)(?:\+C\d\d)*)\.([\w.]+)', body):
+            for q in ps.split("+"):
+                labs.add(q + "." + rest)
+        res[m.group(1)] = (labs, set(re.findall(r"\b(\w+)(?:::<[^>]*>)?\(", body)))
     return res
 
 
@@ -86,7 +90,9 @@ def scan(path):
             while k < len(src) and not re.match(r"^(#\[|fn |pub\(crate\) fn |// ====)", src[k]):
                 body.append(src[k])
                 k += 1
-            labels = re.findall(r'"(C\d\d)\.([\w.]+)', "\n".join(body))
+            labels = []
+            for ps, rest in re.findall(r'"((?:C\d\d)(?:\+C\d\d)*)\.([\w.]+)', "\n".join(body)):
+                labels += [(q, rest) for q in ps.split("+")]
             if not labels:
                 # the harness instantiates a shared contract fn: take that fn's labels
                 for callee in allfns.get(name, (set(), set()))[1]:
